@@ -89,6 +89,9 @@ def run_history(ctx, g, rng, length):
         items.append([0x14]); impl.append([0, len(cfg), got_edges])
         if got_edges != want or len(cfg) != len(shadow):
             problems.append("iteration/len %s (len %d) but the set is %s" % (got_edges, len(cfg), want))
+        # a set's truth value is "not empty" (the dunder protocol: bool(), `if ir.cfg:`, `not cfg`)
+        if bool(cfg) != bool(shadow) or (not cfg) != (not shadow):
+            problems.append("bool(cfg) is %s while the set has %d edges" % (bool(cfg), len(shadow)))
         if not full:
             return
         for n in range(1, 8):
